@@ -74,11 +74,17 @@ class Gen:
         self.used_huge = False
         self.used_many = False
         self.allow_huge = False
+        self.session_handle = None
 
     # -- primitives --
     def value(self, tname):
         rng = self.rng
         iv = self.L.types[tname]["valid"]
+        if self.L.types[tname].get("bitfield") and rng.random() < 0.3:
+            # attribute words of different types often hold numerically equal small values (0x20, 0x60, 0xf6 ...)
+            v = rng.choice((0x20, 0x40, 0x60, 0x01, 0xF6, rng.randrange(256)))
+            if self.L.valid(tname, v):
+                return v
         a, b = iv[rng.randrange(len(iv))]
         if a == b:
             return a
@@ -238,7 +244,10 @@ class Gen:
                 attrs |= bit
             if other_bit_set and i == other_carrier:
                 attrs |= other_bit
-            out.append(self.struct(stype, depth=2, force={"sessionAttributes": attrs}))
+            force = {"sessionAttributes": attrs}
+            if self.session_handle is not None and stype == "TPMS_AUTH_COMMAND" and rng.random() < 0.8:
+                force["sessionHandle"] = self.session_handle      # the session started earlier in this capture
+            out.append(self.struct(stype, depth=2, force=force))
         return out
 
     def command(self, cc=None, n_sessions=None, enc=None, resp_enc=None):
